@@ -63,6 +63,8 @@ pub struct RunCfg {
     pub universe: u32,
     /// raw mode: no model validation (C10 continuations)
     pub raw: bool,
+    /// record the item ids of returned elements even among equal priorities (C17 twin comparison)
+    pub strict_trace: bool,
 }
 
 thread_local! {
@@ -392,7 +394,7 @@ impl<'c, Q: Queue> Interp<'c, Q> {
         if self.trace.is_some() {
             let ev = TraceEv::OptElem(e.map(|(id, tag, p)| {
                 // the id is comparable only when the priority is unique (before removal)
-                let uniq = self.model.count_prio(p) <= 1;
+                let uniq = self.cfg.strict_trace || self.model.count_prio(p) <= 1;
                 (if uniq { Some(id) } else { None }, tag, p)
             }));
             self.tr(ev);
